@@ -120,6 +120,24 @@ def parse_sanitizer_logs(prefix):
     return reports
 
 
+_DEMANGLE_CACHE = {}
+
+
+def demangle(sym):
+    """Function name without arguments / template arguments, for stable violation keys."""
+    if sym not in _DEMANGLE_CACHE:
+        name = sym
+        try:
+            name = subprocess.run(["c++filt", sym], stdout=subprocess.PIPE, text=True, timeout=10).stdout.strip() or sym
+        except Exception:
+            pass
+        name = re.sub(r"\(.*$", "", name)
+        name = re.sub(r"<[^<>]*>", "<>", name)
+        name = re.sub(r"<[^<>]*>", "<>", name)
+        _DEMANGLE_CACHE[sym] = name.split(" ")[-1]
+    return _DEMANGLE_CACHE[sym]
+
+
 def run_shard(cmd, env, timeout):
     t0 = time.time()
     try:
@@ -202,6 +220,8 @@ def run_check(prop, cfg, tier, seed, replay=None):
     tasks = []
     for ji, j in enumerate(jobs):
         n = j.get("shards", 1)
+        if n <= 0:
+            continue
         for s in range(n):
             out = os.path.join(rundir, "j%d-s%d.jsonl" % (ji, s))
             hashes = os.path.join(rundir, "j%d-s%d.hashes" % (ji, s))
@@ -242,6 +262,8 @@ def run_check(prop, cfg, tier, seed, replay=None):
             if ty == "violation":
                 shard_viol += 1
                 rp = r.get("replay") or {}
+                if r.get("key", "").startswith("crash:") and isinstance(rp, dict) and rp.get("pc_symbol"):
+                    r["key"] = r["key"] + ":" + demangle(rp["pc_symbol"])
                 rp["_cmd"] = t["cmd"]
                 rp["_variant"] = t["variant"]
                 violations.append((r.get("key", "?"), rp))
